@@ -213,6 +213,21 @@ package nfsv4
 //@   props C18
 //@   ensures every-hold-is-released: forall c ref :: holds(c) == 0
 
+// A leaf that OPEN has opened is either handed to the open state (upgrade) or
+// closed again before OPEN returns, whatever the outcome: no failed OPEN or
+// refused reclaim leaves a reference behind that nothing can close (C18).
+// openedhere(nil) / handedover(nil): this call opened a leaf / handed it to an
+// open-owner file state.
+//@ ghost map openedhere(ref) int zero
+//@ ghost map handedover(ref) int zero
+//@ func (*sequenceState).opOpen
+//@   props C18
+//@   at call VirtualOpenChild#1 ghostset openedhere[nil] = ite(r3 == virtual.StatusOK, 1, 0)
+//@   at call VirtualOpenSelf#1 ghostset openedhere[nil] = ite(r0 == virtual.StatusOK, 1, 0)
+//@   at call upgrade#1 ghostset handedover[nil] = 1
+//@   trustcall upgrade -- representation invariant: the share counts of an open-owner file state that is registered in (or was just created for) the client's tables are consistent with its share mask
+//@   ensures an-opened-leaf-is-handed-over-or-closed: openedhere(nil) == 1 ==> handedover(nil) == 1 || vclosed(nil) >= 1
+
 // Lock order: the lock of a file's byte-range lock table and the lock of the
 // opened-files pool are innermost (they are taken with a client's lock held).
 //@ leaflock OpenedFile.locksLock -- innermost lock: protects the byte-range lock table only
